@@ -114,6 +114,14 @@ func c20Exec(cs fw.Case) *fw.Fail {
 	if fail != "" {
 		return fw.Failf("same meaning as the canonical rendering", "%s", fail)
 	}
+	// a huge layout must also be accepted by the file API (read in its real pages)
+	if len(c.Variant) > 60000 {
+		whole := obsWhole(c.Variant)
+		fileObs, _ := obsFile(c.Variant, nil)
+		if d := diffObs(whole, fileObs); d != "" {
+			return fw.Failf("ParseFile accepts the layout that Parse accepts (a separator of tens of thousands of bytes)", "%s", d)
+		}
+	}
 	// comments must also end at CR/LF only when the source arrives in pieces (file API)
 	if strings.Contains(c.Variant, "#") && len(c.Variant) <= 200 {
 		whole := obsWhole(c.Variant)
@@ -206,7 +214,7 @@ func init() {
 		Level: "model_checking",
 		Rule: "for every program of the corpus (accepted and rejected, <=40 tokens): the canonical single-space rendering versus every re-rendering with <=k deviating gaps (k=2 for <=8 tokens (thorough <=12; thorough k=3 for <=5 tokens), else 1), each deviating gap taking each of 25 separators {nothing where the reference lexer allows adjacency, tab, VT, FF, CR, LF, CR LF, U+0085, U+00A0, mixes, comments whose bodies hold quotes, backslash, keywords, non-ASCII, '#', ';', ')', U+0085 and end in LF or CR}; all gaps set to one separator; the optional ';' toggled after each statement; " +
 			"each whole sub-expression wrapped in 1 or 2 redundant pairs of parentheses. Oracle: identical code and constants sections (independent decoder), identical output/blocks/binding/error message/warning count; rejected stays rejected with the same first diagnostic. " +
-			"Conversely: string literals holding each of 14 special characters at each position of a 3-character body and comments placed before tokens are checked against the reference evaluator byte for byte.",
+			"Huge layouts (70000 blanks / tabs / CRs / LFs between two tokens, a 70000-byte comment) through Parse and ParseFile. Conversely: string literals holding each of 14 special characters at each position of a 3-character body and comments placed before tokens are checked against the reference evaluator byte for byte.",
 		Subs:           []*fw.Sub{subC20, subC20Str},
 		BudgetQuick:    100,
 		BudgetThorough: 1500,
@@ -218,6 +226,18 @@ func init() {
 				k2 = 12
 			}
 			progs := append([]string{}, gen.Small()...)
+			// statements that end in a name and are followed, without ';', by a statement that starts with a parenthesis
+			progs = append(progs, "def b { x = 1 y = x ( z = x + 1 ) w = y ( 2 ) }", "def b { v = x ( 3 ) ( 4 ) }", "var x = 1 def b { y = x ( x = 2 ) }")
+			// huge layout: 70000 blanks / tabs / CRs between two tokens, a 70000-byte comment (a layout is never "too long")
+			{
+				canon := "var a = 1 print a + 2 def b { x = a }"
+				for _, big := range []string{strings.Repeat(" ", 70000), strings.Repeat("\t", 70000), strings.Repeat("\r", 70000), " #" + strings.Repeat("c", 70000) + "\n", strings.Repeat("\n", 70000), strings.Repeat(" \u00a0", 30000)} {
+					for _, at := range []string{"1 print", "+ 2", "{ x"} {
+						v := strings.Replace(canon, at, strings.Replace(at, " ", big, 1), 1)
+						c.Do(subC20, &c20Case{Canon: canon, Variant: v})
+					}
+				}
+			}
 			for _, e := range gen.ExprPrograms([]string{"2", "2.5", `"a"`, "nil"}) {
 				progs = append(progs, e)
 			}
